@@ -22,6 +22,12 @@ def per_actor(log):
         elif k in ("done",):
             continue
         else:
+            if d.get("type") == "comm":
+                # Which of the two s4u::Comm handles (sender's or receiver's) a completed communication is reported through
+                # depends on the order in which the two actors ran `pimpl_->set_iface(this)` after their simcall: that code runs
+                # in actor context, so under parallel contexts it is whichever thread came last.  Not an observable result of
+                # the simulation (dates, hosts and payloads are compared): the handle's name is left out.
+                d.pop("name", None)
             sig.append(core.canon(d))
     return acts, sorted(sig)
 
